@@ -1,25 +1,26 @@
 #!/usr/bin/env python3
-"""Print the markdown table of seeded changes and the obligation groups that caught them (from seeded/*/meta.json)."""
-import json, glob, os
-print("| seeded change | what it does | caught by (first failing obligation groups) |")
+"""Print the markdown table of seeded changes and the obligation groups that catch them now
+(from selftest/last_run.txt, the log of the latest full `./check selftest`; first-run outcome from meta.json)."""
+import json, glob, os, re
+last = {}
+for l in open('/verif/selftest/last_run.txt'):
+    m = re.match(r'^(PASS|FAIL) mutants (C\d+)/seed-(\S+): (.*)$', l.strip())
+    if m:
+        last[(m.group(2), m.group(3))] = (m.group(1), m.group(4))
+print("| seeded change | what it does | caught by (own property's check, latest full selftest run) |")
 print("|---|---|---|")
 for d in sorted(glob.glob('/verif/seeded/*')):
-    m = json.load(open(d + '/meta.json'))
+    n = os.path.basename(d); prop, var = n.split('-', 1)
+    meta = json.load(open(d + '/meta.json'))
     title = ''
     if os.path.exists(d + '/README.md'):
         title = open(d + '/README.md').readline().strip('# \n')
         for sep in (' — ', ' - ', ': '):
             if sep in title:
-                title = title.split(sep, 1)[1]
-                break
-    caught = []
-    for c, r in (m.get('check_results') or {}).items():
-        if isinstance(r, dict) and r.get('exit') == 1:
-            g = [x.replace('failed obligation group: ', '') for x in r.get('failed', [])]
-            g = [('bounded stand-in ' + x.split('(')[0].replace('bounded ', '').strip()) if x.startswith('bounded') else x for x in g]
-            n = len(g)
-            s = ', '.join('`%s`' % x for x in g[:2]) + (' (+%d more: contract of the function no longer fits)' % (n - 2) if n > 2 else '')
-            caught.append('%s: %s' % (c, s))
-    if not caught:
-        caught = ['**not detected**']
-    print('| %s | %s | %s |' % (os.path.basename(d), title.replace('|', '/'), '; '.join(caught)))
+                title = title.split(sep, 1)[1]; break
+    st, txt = last.get((prop, var), ('?', 'not in the last selftest run'))
+    txt = re.sub(r'^ok: ', '', txt)
+    groups = [g.strip() for g in txt.split(';') if g.strip()]
+    shown = ', '.join('`%s`' % g for g in groups[:2]) + (' ...' if len(groups) > 2 else '')
+    now = shown if st == 'PASS' else '**NOT detected**'
+    print('| %s | %s | %s |' % (n, title.replace('|', '/')[:150], now))
